@@ -311,6 +311,13 @@ mod imp {
         vec![X::min_().cell(), X::max_().cell()]
     }
 
+    /// sign bit of the extreme (1 / 0 / null): tells +0 from -0, which value cells cannot
+    pub fn zero_signs(xs: &[f64]) -> Vec<Cell> {
+        use tevec::prelude::TIter;
+        let sg = |o: Option<f64>| match o { Some(m) => Cell::Int(m.is_sign_negative() as i128), None => Cell::Null };
+        vec![sg(xs.titer().vmin()), sg(xs.titer().vmax())]
+    }
+
     /// Number::to / Number::fromas (layout in Run/RunC11.v num_casts)
     pub fn casts(x: f64, k: i64) -> Vec<Cell> {
         let k32: i32 = <i64 as Number>::to::<i32>(k);
@@ -952,6 +959,14 @@ fold n_add from 0 over xs -> value n; fold n_prod from 1 over xs -> value n; Kah
             || lit(format!("c_float {}", coq_f64(f64::MIN)), format!("c_float {}", coq_f64(f64::MAX))), || run(|| imp::number_range::<f64>()));
         em.case("custom:exact", "fn=number_range ty=f32", "fn=Number::min_, max_ ty=f32",
             || lit(format!("c_float {}", coq_f64(f32::MIN as f64)), format!("c_float {}", coq_f64(f32::MAX as f64))), || run(|| imp::number_range::<f32>()));
+    }
+    // ---- which of two equal extremes is returned: +0 / -0 in every order (C11_perm_extrema_bitwise_refuted) ----------
+    for len in 1..=3usize {
+        for xs in enumerate(&[0.0f64, -0.0, f64::NAN, 1.0, -1.0], len) {
+            em.case("custom:exact", &format!("fn=zero_sign ty=f64 len={}", len),
+                &format!("group=zero_sign xs={:?} (bits {:?}) ; cells: sign bit of vmin, of vmax", xs, xs.iter().map(|x| format!("{:016x}", x.to_bits())).collect::<Vec<_>>()),
+                || format!("(zero_sign_f {})", coq_f(&xs)), || run(|| imp::zero_signs(&xs)));
+        }
     }
     // ---- Number::to / fromas ---------------------------------------------------------------------------------
     const CAST_LAYOUT: &str = "cells: x.to::<i32>() x.to::<i64>() x.to::<usize>() x.to::<f64>() x.to::<f32>() i32::fromas(x) i64::fromas(x) \
